@@ -288,6 +288,13 @@ def finish(pid, tier, seed, part, t0, rule, nontrivial_count=None, exhaustive=No
                                 "instances_in_class": len(vs), "replay": v["replay"]}), f, ensure_ascii=False, indent=1)
         print("VIOLATION property=%s replay=%s" % (pid, rp))
         print("  " + v["text"][:600])
+    kinds = {}
+    for vs in classes.values():
+        for v in vs:
+            kk = "%s/%s" % (v["sig"].get("kind"), v["sig"].get("backend"))
+            kinds[kk] = kinds.get(kk, 0) + 1
+    if kinds:
+        print("  violation kinds: " + ", ".join("%s=%d" % kv for kv in sorted(kinds.items())))
     inconclusive = list(part.inconclusive)
     if part.evals < min_evals and not n_viol:
         inconclusive.append("only %d evaluations observed (floor %d)" % (part.evals, min_evals))
@@ -298,7 +305,7 @@ def finish(pid, tier, seed, part, t0, rule, nontrivial_count=None, exhaustive=No
            "counters": jsonable(part.counters), "max_err_over_tol": round(part.max_ratio, 6),
            "max_err_over_tol_case": jsonable(part.max_ratio_case),
            "known_findings_observed": {kid: cnt for kid, (k, cnt) in known_hits.items()},
-           "inconclusive": inconclusive, "notes": part.notes[:20],
+           "violation_kinds": kinds, "inconclusive": inconclusive, "notes": part.notes[:20],
            "repo": common.repo_fingerprint(), "workers": NCPU}
     if exhaustive is not None:
         cov["exhaustive"] = bool(exhaustive)
